@@ -676,3 +676,101 @@ func runSpan(x *h.Ctx, c SpanCase) string {
 func init() {
 	h.EnumSample("statement_list_continues_in_next_file", enumSpan, runSpan)
 }
+
+// ---------------------------------------------------------------------------
+// counts stay exact (and stay decimal integers) when blocks execute very often
+
+type BigCase struct {
+	N    int    `json:"n"`
+	Form string `json:"form"` // loop | nested | while | records
+	Mode string `json:"mode"`
+}
+
+func enumBig(thorough bool, yield func(BigCase) bool) {
+	ns := []int{999999, 1000000, 1000001, 1234567, 2097153}
+	if thorough {
+		ns = append(ns, 9999999, 10000000, 16777217, 33554433)
+	}
+	for _, n := range ns {
+		for _, form := range []string{"loop", "nested", "while", "records"} {
+			if form == "records" && n > 2200000 {
+				continue
+			}
+			for _, mode := range []string{"count", "set"} {
+				if !yield(BigCase{N: n, Form: form, Mode: mode}) {
+					return
+				}
+			}
+		}
+	}
+}
+
+func runBig(x *h.Ctx, c BigCase) string {
+	dir := h.TempDir("c18b")
+	defer os.RemoveAll(dir)
+	var src, stdin string
+	// want: count of the block at each source line (1-based) that starts a block
+	want := map[int]int{}
+	switch c.Form {
+	case "loop":
+		src = fmt.Sprintf("BEGIN {\n  for (i = 0; i < %d; i++)\n    x++\n  print x\n}\n", c.N)
+		want[2], want[3], want[4] = 1, c.N, 1
+	case "nested":
+		a, b := 1000, c.N/1000
+		src = fmt.Sprintf("BEGIN {\n  for (i = 0; i < %d; i++)\n    for (j = 0; j < %d; j++)\n      x++\n  print x\n}\n", a, b)
+		want[2], want[3], want[4], want[5] = 1, a, a*b, 1
+	case "while":
+		src = fmt.Sprintf("BEGIN {\n  while (i < %d) {\n    i++\n    if (i %% 2)\n      odd++\n  }\n  print i, odd\n}\n", c.N)
+		want[2], want[3], want[5], want[7] = 1, c.N, (c.N+1)/2, 1
+	default:
+		src = "{\n  n++\n}\nEND {\n  print n\n}\n"
+		stdin = strings.Repeat("\n", c.N)
+		want[2], want[5] = c.N, 1
+	}
+	os.WriteFile(filepath.Join(dir, "p.awk"), []byte(src), 0o644)
+	plain := runCLI(dir, []string{"-f", "p.awk"}, stdin, nil)
+	r := runCLI(dir, []string{"-coverprofile", "cover.out", "-covermode", c.Mode, "-f", "p.awk"}, stdin, nil)
+	if plain.status == -1 || r.status == -1 {
+		// killed by the harness's 30 s limit on a saturated machine: time is not a verdict
+		x.Discard("run did not finish within the harness's time limit")
+		return ""
+	}
+	if r.status != plain.status || r.stdout != plain.stdout || r.stderr != plain.stderr {
+		return fmt.Sprintf("coverage changes the run: without status=%d stdout=%q stderr=%q, with status=%d stdout=%q stderr=%q\n%s", plain.status, plain.stdout, plain.stderr, r.status, r.stdout, r.stderr, src)
+	}
+	data, err := os.ReadFile(filepath.Join(dir, "cover.out"))
+	if err != nil {
+		return "no coverage profile was written"
+	}
+	seen := map[int]bool{}
+	for _, l := range strings.Split(strings.TrimSpace(string(data)), "\n")[1:] {
+		m := profLineRE.FindStringSubmatch(l)
+		if m == nil {
+			return fmt.Sprintf("profile line %q is not '<file>:<l>.<c>,<l>.<c> <statements> <count>' with a decimal integer count\n%s", l, src)
+		}
+		l1, _ := strconv.Atoi(m[2])
+		n, _ := strconv.Atoi(m[7])
+		w, ok := want[l1]
+		if !ok {
+			return fmt.Sprintf("unexpected block starting at line %d: %s\n%s", l1, l, src)
+		}
+		if c.Mode == "set" && w > 0 {
+			w = 1
+		}
+		if n != w {
+			return fmt.Sprintf("block starting at line %d executed %d times, the profile (%s mode) says %d: %s\n%s", l1, want[l1], c.Mode, n, l, src)
+		}
+		seen[l1] = true
+	}
+	for l1 := range want {
+		if !seen[l1] {
+			return fmt.Sprintf("no block reported for the statement at line %d\nprofile:\n%s\n%s", l1, data, src)
+		}
+	}
+	x.Nontrivial("")
+	return ""
+}
+
+func init() {
+	h.Enum("large_counts", enumBig, runBig)
+}
